@@ -29,6 +29,7 @@ type jsonModel struct {
 	stackF   int                    // path stack field
 	capF     int                    // recursion cap field
 	guardFn  *ssa.Function          // family function holding the depth guard
+	getter   *ssa.Function          // optional helper that takes the state from the pool (and may reset it) for the entry
 	wrap     map[*ssa.Function]bool // non-family methods of the state that call into the family on their own receiver
 }
 
@@ -75,6 +76,29 @@ func getJSON(c *core.Ctx) *jsonModel {
 	if m.parse == nil {
 		core.Bail("scanner entry (function taking the state from a sync.Pool) not found in %s", core.PkgJSON)
 	}
+	// getter helper: the function taking the state from the pool only hands it out (returns it, calls no scanner):
+	// the entry is then its caller
+	if rs := m.parse.Signature.Results(); rs.Len() == 1 {
+		if pt, ok := rs.At(0).Type().(*types.Pointer); ok && types.Identical(pt.Elem(), m.state) {
+			var callers []*ssa.Function
+			for _, mem := range m.pkg.Members {
+				f, ok := mem.(*ssa.Function)
+				if !ok || f.Blocks == nil || f == m.parse {
+					continue
+				}
+				for _, ci := range core.Calls(f) {
+					if ci.Common().StaticCallee() == m.parse {
+						callers = append(callers, f)
+					}
+				}
+			}
+			if len(callers) == 1 {
+				m.getter, m.parse = m.parse, callers[0]
+			} else {
+				core.Bail("the pool getter %s has %d callers", m.parse.Name(), len(callers))
+			}
+		}
+	}
 	m.stStruct, _ = m.state.Underlying().(*types.Struct)
 	if m.stStruct == nil {
 		core.Bail("pooled scanner state is not a struct")
@@ -98,6 +122,17 @@ func getJSON(c *core.Ctx) *jsonModel {
 		core.Bail("scanner family has only %d members", len(m.famList))
 	}
 	// first method called on the pooled value (through the spilled local) = reset; the family call = entry
+	if m.getter != nil {
+		for _, ci := range core.Calls(m.getter) {
+			f := ci.Common().StaticCallee()
+			if f == nil || f.Signature.Recv() == nil || m.reset != nil {
+				continue
+			}
+			if pt, ok := f.Signature.Recv().Type().(*types.Pointer); ok && types.Identical(pt.Elem(), m.state) {
+				m.reset = f
+			}
+		}
+	}
 	for _, b := range m.parse.Blocks {
 		for _, in := range b.Instrs {
 			call, ok := in.(*ssa.Call)
